@@ -102,6 +102,7 @@ LawGrid      == IsGeom => OnGrid(PointAt(pa, s2, 2)[1], Den) /\ OnGrid(PointAt(p
 LawMerge     == mode = "merge" => LET a == LaneOf(pa)  b == LaneOf(pb)
                                   IN Joint(a, b) /\ LawMergeLength(a, b) /\ LawMergeCount(a, b) /\ LawMergeCum(a, b)
                                      /\ WellFormed(Merge(a, b).c)
+                                     /\ \A sn \in 0..2 * (Length(pa) + Length(pb)) : LawMergePoint(a, b, sn, 2)
 
 IsRoute == mode = "route"
 InvResult == IsRoute /\ done => ValidRoutes(G, len, start, range, final)
